@@ -131,6 +131,7 @@ PROFILES = [
     {'Sort': 2},
     {'Sort': 1, 'SeparatePackage': 'auto'},
     {'NoOptions': True},
+    {'Sort': 2, 'SeparatePackage': 'override'},
 ]
 
 
@@ -203,7 +204,8 @@ def get_batches(tier, seed):
         # the deterministic shape-coverage case (corpus/sink.json: every template in every position), under two profiles
         # (all profiles in the thorough tier); its operations are still drawn from VERIF_SEED
         sink = f'{VERIF}/corpus/sink.json'
-        sink_profiles = [{}, {'Sort': 1, 'SeparatePackage': 'auto'}] if tier == 'quick' else PROFILES[:5]
+        # ('override': default_package_name is the bare package name, the import path comes from import_path_overrides)
+        sink_profiles = [{}, {'Sort': 1, 'SeparatePackage': 'override'}] if tier == 'quick' else PROFILES[:5] + [{'SeparatePackage': 'override'}]
         for k, prof in enumerate(sink_profiles):
             futs.append(ex.submit(run_batch, cache, f'sink{k}', seed, plugin_path(rh), scale, prof, sink))
         dirs = [f.result() for f in futs]
